@@ -44,10 +44,20 @@ ASSUMPTIONS = ['the mean-occupation functions themselves are taken from the pack
 
 def gen(rng, tier):
     from e1_threads.harness import gen_sched
-    c = HC.gen_tables(rng, tier)
+    c = HC.gen_tables(rng, tier, max_h=200, max_p=400) if (tier == 'thorough' and rng.random() < 0.3) else HC.gen_tables(rng, tier)
     c['Nthread'] = rng.choice([1, 2, 3, 4, 8, 16])
     c['sched'] = gen_sched(rng)
     c['ic_scale'] = rng.choice([0.3, 0.5, 0.9])
+    # a history: the same tracer dictionaries are re-used for a second call after in-place parameter
+    # updates (the run_hod fitting-loop pattern)
+    upd = {}
+    for t in c['tracers']:
+        if rng.random() < 0.7:
+            key = rng.choice(['logM1', 'alpha', 'logM_cut', 'sigma', 'alpha_s', 'ic'])
+            new = {'logM1': rng.uniform(12.0, 14.2), 'alpha': rng.uniform(0.5, 1.5), 'logM_cut': rng.uniform(12.0, 13.6),
+                   'sigma': rng.uniform(0.15, 0.9), 'alpha_s': rng.uniform(0.5, 1.5), 'ic': rng.uniform(0.2, 1.0)}[key]
+            upd[t] = {key: new}
+    c['second_call'] = upd
     c['compiled'] = (tier == 'thorough' and rng.random() < 0.05)
     return c
 
@@ -160,6 +170,26 @@ def run(case):
             if d:
                 violation(out, 'later-tracer-changes-earlier', site, {'removed': last, 'diff': d})
                 return out
+    # ---- history: two calls on the *same* tracer dictionaries with in-place updates in between
+    if case.get('second_call'):
+        shared = {t: dict(v) for t, v in c['tracers'].items()}
+        resA, excA, _ = H.run(lambda: HR.flatten(HR.call(G, c, T, tracers=shared)), dict(s, seed=s.get('seed', 0) + 3))
+        if excA is not None:
+            violation(out, 'raises:' + type(excA).__name__, site + ':first-call', repr(excA)[:300])
+            return out
+        c4 = copy.deepcopy(c)
+        for t, kv in case['second_call'].items():
+            if t in shared:
+                shared[t].update(kv)
+                c4['tracers'][t].update(kv)
+        resB, excB, _ = H.run(lambda: HR.flatten(HR.call(G, c4, T, tracers=shared)), dict(s, seed=s.get('seed', 0) + 4))
+        if excB is not None:
+            violation(out, 'raises:' + type(excB).__name__, site + ':second-call', repr(excB)[:300])
+            return out
+        _check_against_model(out, site + ':second-call-after-in-place-update', c4, resB, occ)
+        if out['violations']:
+            return out
+        bump(out['faults'], 'tracer-dict-reused-after-in-place-update')
     out['events'].append(['cat', len(c['halos']), len(c['parts']), sorted(c['tracers']), T, ngal])
     if case.get('compiled'):
         _compiled(case, c, out, occ)
